@@ -7,7 +7,7 @@ ALL = [f"C{i:02d}" for i in range(1, 21)]
 MC = "model_checking"
 CHECKS = {
  "C01": dict(
-   text="For every rule of rules.json (generated into the spec at check time) TLC builds the product automaton of the strict and lenient reading of the children section by Brzozowski derivatives (MC_Dfa) and cross-checks it against an independent declarative membership definition on every word up to a per-rule budget (MC_Words; ~1e6 words in thorough). From TLC's graph the harness derives a W-method suite (complete for validators with up to k extra states; k=0/1 quick, 1/2 thorough), all short words and accepted random walks; every word is a path in TLC's graph whose end state carries the verdict and is run through validate.node in both modes: ACCEPT => no error; REJECT => only child-not-allowed/min/max errors; UNSPEC not judged.",
+   text="For every rule of rules.json (generated into the spec at check time) TLC builds the product automaton of the strict and lenient reading of the children section by Brzozowski derivatives (MC_Dfa) and cross-checks it against an independent declarative membership definition on every word up to a per-rule budget (MC_Words; ~1e6 words in thorough). From TLC's graph the harness derives a W-method suite (complete for validators with up to k extra states; k=0/1 quick, 1/2 thorough), all short words and accepted random walks; every word is a path in TLC's graph whose end state carries the verdict and is run through validate.node in both modes: ACCEPT => no error; REJECT => only child-not-allowed/min/max errors; UNSPEC not judged. The forest walks are repeated with hostile decorations that must not matter: children constructed with one explicit id, carrying a prefix, absent from the registry; foreign names with format-string metacharacters.",
    note="Trusted: TLC, the JSON->TLA+ generator (verbatim encoding), realisation of a word as a parent with valid content/attributes. FOREIGN stands for all names outside the rule. W-method completeness is relative to k.",
    technique="TLA+ regex semantics (Regex.tla, RuleJson.tla) explored by TLC into per-rule automata; W-method conformance suite from TLC's graph replayed through validate.node",
    design="4/C01"),
@@ -22,22 +22,22 @@ CHECKS = {
    technique="TLA+ state machine over attribute assignments (MC_Attr) explored exhaustively by TLC; every state replayed through validate.node",
    design="4/C03"),
  "C04": dict(
-   text="Trace validation: every validate.node call on every node and validate.tree on the root, in both modes, of (b) 1-3 adversarial mutations of the EML fixture and of rule-guided generated trees (16 named operators incl. every content class, hostile Unicode, non-string attribute values), (c) random trees over known/unknown names, (d) chains to depth 100 and (e) a systematic sweep of every known element x ~70 hostile contents x attributes, is recorded under a watchdog and judged by TraceValidate.tla, whose Validate action has only the outcomes 'succeeds' / 'rule error' (OutcomeOK: no other exception, collecting never raises, entry shape, list empty iff fail-fast succeeds). Error codes and exception kinds exercised are counted in the evidence. The sweep also plants hostile attribute names (colons, empties, controls, format metacharacters, look-alikes of declared names) and typed templates perturbed with characters on which Python's predicates and parsers disagree.",
+   text="Trace validation: every validate.node call on every node and validate.tree on the root, in both modes, of (b) 1-3 adversarial mutations of the EML fixture and of rule-guided generated trees (16 named operators incl. every content class, hostile Unicode, non-string attribute values), (c) random trees over known/unknown names, (d) chains to depth 100 and (e) a systematic sweep of every known element x ~70 hostile contents x attributes, is recorded under a watchdog and judged by TraceValidate.tla, whose Validate action has only the outcomes 'succeeds' / 'rule error' (OutcomeOK: no other exception, collecting never raises, entry shape, list empty iff fail-fast succeeds). Error codes and exception kinds exercised are counted in the evidence. The sweep also plants hostile attribute names (colons, empties, controls, format metacharacters, look-alikes of declared names) and typed templates perturbed with characters on which Python's predicates and parsers disagree. Shallow trees with 1,100 / 2,500 (thorough 6,000) children of 12 parent kinds; a share of the trees is validated with the registry emptied or with all nodes sharing one id.",
    note="Inputs are the point here; the judge is small. 130k validations quick, millions thorough. Lone surrogates and nesting beyond 100 are outside the quantifier.",
    technique="trace validation: recorded validation outcomes judged by a TLA+ trace specification (TraceValidate.tla) with TLC",
    design="4/C04"),
  "C05": dict(
-   text="Trace validation with a relational judge: for each tree the harness records the node table, the observed per-node outcomes (validate.node, both modes) and the observed validate.tree outcomes; TLC (TraceValidate.tla, TreeErrs/Visible) requires the tree's error list to be the document-order concatenation of the lists of the nodes not below a metadata element and fail-fast success to be the conjunction. Inputs: every single site x 4 defect kinds and (sampled / all) pairs of sites on a ~40-node generated valid tree, plus seeded 0-4 mutations of generated trees and the fixture, always with arbitrary (also invalid, also two) foreign subtrees under additionalMetadata/metadata.",
+   text="Trace validation with a relational judge: for each tree the harness records the node table, the observed per-node outcomes (validate.node, both modes) and the observed validate.tree outcomes; TLC (TraceValidate.tla, TreeErrs/Visible) requires the tree's error list to be the document-order concatenation of the lists of the nodes not below a metadata element and fail-fast success to be the conjunction. Inputs: every single site x 4 defect kinds and (sampled / all) pairs of sites on a ~40-node generated valid tree, plus seeded 0-4 mutations of generated trees and the fixture, always with arbitrary (also invalid, also two) foreign subtrees under additionalMetadata/metadata. A quarter of the trees is validated with the registry emptied after building, a quarter with all nodes sharing one id; 84 deterministic look-alike twin trees (two nodes of one rule differing only in the value of an enumerated attribute, both orders).",
    note="Per-node observations are taken from the same implementation; only their relation to the tree result is judged here (C04 judges the outcomes themselves).",
    technique="trace validation with a relational TLA+ judge (TraceValidate.tla) evaluated by TLC on recorded tree validations",
    design="4/C05"),
  "C06": dict(
-   text="Codec.tla specifies the 8-slot layout (slot order included), the legacy 4-slot layout, the converter's Upgrade and the inverse maps; MC_Codec checks on all 758 trees of <= 3 nodes over 8 node variants that the format loses nothing (De(Ser(t)) = t, stable re-serialisation, legacy view, Upgrade(SerL(t)) loads as the legacy view). spec->code: each small tree is built, saved by both codecs and the converter (compiled from utils/convert.py), and the emitted text compared slot by slot and key-order-exactly with TLC's documents, then loaded. code->spec: seeded trees of 1-40 nodes with arbitrary Unicode (lone surrogates, control characters, empty strings) in every text field; save/load/re-save, legacy save/load, upgrade/load events judged by TraceCodec.tla (layout, loaded tree, parent links, registration, identical text).",
+   text="Codec.tla specifies the 8-slot layout (slot order included), the legacy 4-slot layout, the converter's Upgrade and the inverse maps; MC_Codec checks on all 758 trees of <= 3 nodes over 8 node variants that the format loses nothing (De(Ser(t)) = t, stable re-serialisation, legacy view, Upgrade(SerL(t)) loads as the legacy view). spec->code: each small tree is built, saved by both codecs and the converter (compiled from utils/convert.py), and the emitted text compared slot by slot and key-order-exactly with TLC's documents, then loaded. code->spec: seeded trees of 1-40 nodes with arbitrary Unicode (lone surrogates, control characters, empty strings) in every text field; save/load/re-save, legacy save/load, upgrade/load events judged by TraceCodec.tla (layout, loaded tree, parent links, registration, identical text). Explicit ids include UUID spellings, numbers, null-like and blank strings.",
    note="Text identity is decided through interned atoms. The precondition (child prefixes include the parent's) is established through the API. Default (None-keyed) namespaces are outside the quantifier.",
    technique="TLA+ codec specification model-checked by TLC (MC_Codec) and replayed; recorded codec events trace-validated by TLC (TraceCodec.tla)",
    design="4/C06"),
  "C07": dict(
-   text="Xml.tla defines the correspondence between a raw XML document (names and xmlns:* attributes as written, as reported by a non-namespace-aware parser) and a tree: InScope folds the declarations down the document (recomputed in TLA+, independently of lxml), qualified attributes are compared by expanded name, text modulo XML-whitespace strip with blank == absent. Seeded trees (1-25 nodes, prefixes bound through the API incl. re-declaration below, specials < > & \" ' ]]> entity spellings, comment/PI look-alikes, non-ASCII in content, tail, attribute, extras values; valid namespace URIs with & and quotes) are exported by both exporters; the output must be accepted by two independent parsers and is judged by TraceXml.tla (Corr mode export / CorrEml); from_xml(to_xml(t)) must be the same tree up to whitespace. Trees are exported as built roots, as copies of branches, as branches detached with remove_child and as branches in place.",
+   text="Xml.tla defines the correspondence between a raw XML document (names and xmlns:* attributes as written, as reported by a non-namespace-aware parser) and a tree: InScope folds the declarations down the document (recomputed in TLA+, independently of lxml), qualified attributes are compared by expanded name, text modulo XML-whitespace strip with blank == absent. Seeded trees (1-25 nodes, prefixes bound through the API incl. re-declaration below, specials < > & \" ' ]]> entity spellings, comment/PI look-alikes, non-ASCII in content, tail, attribute, extras values; valid namespace URIs with & and quotes) are exported by both exporters; the output must be accepted by two independent parsers and is judged by TraceXml.tla (Corr mode export / CorrEml); from_xml(to_xml(t)) must be the same tree up to whitespace. Trees are exported as built roots, as copies of branches, as branches detached with remove_child and as branches in place. Values include text that merely spells references (&quot; &apos; &nbsp; &#x26; ...).",
    note="Parsers are observation devices (expat for what the text denotes, lxml as second opinion on well-formedness). Default namespaces and invalid URIs as namespace names are outside the quantifier.",
    technique="trace validation: exporter outputs parsed independently and judged by a TLA+ document/tree correspondence (Xml.tla, TraceXml.tla) with TLC",
    design="4/C07"),
@@ -47,7 +47,7 @@ CHECKS = {
    technique="trace validation: imports judged by the TLA+ correspondence relation (Xml.tla + Text.tla) with TLC; exhaustive short texts, seeded documents",
    design="4/C08"),
  "C09": dict(
-   text="TLC explores every forest over 4 nodes x 2 names with every edit (append, insert at every index, remove, clear, replace, both shift modes and directions, and the failing variants) and checks the spec's own invariants/action properties; the harness replays every labelled transition, every state's full query table, all paths to depth 3/4 and seeded walks on real Node objects, and TraceForest.tla judges long random histories over 12-20 nodes recorded from the real API. Exhaustive within the bound; beyond it, sampled. replace_child(x, x) (a node replaced by itself stays attached to one parent) is part of the model.",
+   text="TLC explores every forest over 4 nodes x 2 names with every edit (append, insert at every index, remove, clear, replace, both shift modes and directions, and the failing variants) and checks the spec's own invariants/action properties; the harness replays every labelled transition, every state's full query table, all paths to depth 3/4 and seeded walks on real Node objects, and TraceForest.tla judges long random histories over 12-20 nodes recorded from the real API. Exhaustive within the bound; beyond it, sampled. replace_child(x, x) (a node replaced by itself stays attached to one parent) is part of the model. Every second query state is also built from nodes constructed with one explicit id.",
    note="Trusted: TLC, the projection pi (public properties only), Python list semantics for building states. Assumes the usage constraint of the statement (one parent at a time, no cycles, in-range insert index). Stored parent links of unlisted nodes are not judged.",
    technique="TLA+ spec (Metapype.tla/Forest.tla) model-checked by TLC; logged transition relation replayed into the code; recorded histories trace-validated by TLC (TraceForest.tla)",
    design="4/C09"),
@@ -57,52 +57,52 @@ CHECKS = {
    technique="TLA+ constant-level clauses over the generated rule table evaluated by TLC (MC_Table); witnesses replayed through validate.tree",
    design="4/C10"),
  "C11": dict(
-   text="Every read-only entry point (31: both validators in both modes, both evaluators, 4 JSON/dict serialisers, both XML exporters, both graph renderers, all search queries, insertion index, allowed-child, structural comparison, str/repr/object, attribute queries) is a stuttering action of the spec. After each call the full projection (every field of every node, order, namespace maps, registry) is logged and TraceForest.tla requires post = pre field by field, and - with a memo state variable - that equal calls give equal results since the last mutating call. Orders: a baseline pass, then every ordered pair (enumerated by TLC, MC_ReadOnly), then seeded sequences of 24 on larger trees; trees: EML fixture, generated valid trees, trees with & < > and pre-escaped entities, trees with namespaces/prefixes/extras/tails. Tree kinds include invalid trees (adversarial mutations; attributes stripped from half of the nodes).",
+   text="Every read-only entry point (31: both validators in both modes, both evaluators, 4 JSON/dict serialisers, both XML exporters, both graph renderers, all search queries, insertion index, allowed-child, structural comparison, str/repr/object, attribute queries) is a stuttering action of the spec. After each call the full projection (every field of every node, order, namespace maps, registry) is logged and TraceForest.tla requires post = pre field by field, and - with a memo state variable - that equal calls give equal results since the last mutating call. Orders: a baseline pass, then every ordered pair (enumerated by TLC, MC_ReadOnly), then seeded sequences of 24 on larger trees; trees: EML fixture, generated valid trees, trees with & < > and pre-escaped entities, trees with namespaces/prefixes/extras/tails. Tree kinds include invalid trees (adversarial mutations; attributes stripped from half of the nodes). Eight whole-tree operations are also applied to an inner node; the stored parent pointers are logged and must not move across a read-only call.",
    note="Trusted: pi reads public properties only; an exception is treated as the call's result here. Results are compared as interned strings with nodes rendered by abstract id.",
    technique="trace validation: stuttering + memo clauses of TraceForest.tla judged by TLC on recorded full-state traces; op orders enumerated by TLC",
    design="4/C11"),
  "C12": dict(
-   text="TLC explores MC_Copy: 3 templates (every field populated, namespace dicts aliased between parents and children as the API creates them) x copy of any subtree x every single edit (thorough: every pair of edits) on any node of either tree - one mutator per mutable container a node owns; CopyOK (equal, disjoint, fresh registered ids, unlisted root) is an action property of the spec. Every transition is replayed after its genuine history and the full projection of both trees is compared, so any container shared between copy and original is written through by some explored edit and shows up in the other tree. Every copy transition is replayed a second time on a template whose nodes were constructed with repeated explicit ids (equal copy, fresh pairwise distinct registered ids).",
+   text="TLC explores MC_Copy: 3 templates (every field populated, namespace dicts aliased between parents and children as the API creates them) x copy of any subtree x every single edit (thorough: every pair of edits) on any node of either tree - one mutator per mutable container a node owns; CopyOK (equal, disjoint, fresh registered ids, unlisted root) is an action property of the spec. Every transition is replayed after its genuine history and the full projection of both trees is compared, so any container shared between copy and original is written through by some explored edit and shows up in the other tree. Every copy transition is replayed a second time on a template whose nodes were constructed with repeated explicit ids (equal copy, fresh pairwise distinct registered ids). Chains of 70/150/300 nodes, a fan of 400 and a comb are copied at several nodes and judged by TLC.",
    note="Trusted: TLC, projection pi, interning of text. Small-scope: trees of <= 4 nodes; values from a 2-element universe per field.",
    technique="TLA+ spec model-checked by TLC (MC_Copy); every logged transition replayed into the code with full two-tree projection compare",
    design="4/C12"),
  "C13": dict(
-   text="Frame and NsEffect are action properties of the spec, model-checked over all attach/detach/declare/re-declare/remove histories on 3 nodes (thorough: 2 prefixes, and 4 nodes without logging). Because dict aliasing is hidden state created by history, TLC's graph is replayed along paths (all paths to depth 4) and by a product exploration that visits every reachable (abstract state x alias partition) pair of the implementation with every enabled operation; long random histories over 6-10 nodes / 3 prefixes are trace-validated by TLC.",
+   text="Frame and NsEffect are action properties of the spec, model-checked over all attach/detach/declare/re-declare/remove histories on 3 nodes (thorough: 2 prefixes, and 4 nodes without logging). Because dict aliasing is hidden state created by history, TLC's graph is replayed along paths (all paths to depth 4) and by a product exploration that visits every reachable (abstract state x alias partition) pair of the implementation with every enabled operation; long random histories over 6-10 nodes / 3 prefixes are trace-validated by TLC. The small instance is replayed once more with every node's own prefix field set to the explored prefix.",
    note="Trusted: TLC, pi, id() for alias partitions. What attach does to maps strictly below the attached child is modelled for generation, not judged (the statement is silent).",
    technique="TLA+ action properties checked by TLC; path replay + product exploration of TLC's graph against the code; trace validation of random histories",
    design="4/C13"),
  "C14": dict(
-   text="RegistryStep (the registry changes only by create/copy/import adding exactly the new ids and delete/replace-with-delete removing exactly the named subtree) is an action property checked by TLC over every history of create, import (xml/json), copy, attach, detach, replace(+-delete), delete(+-children) with <= 4 (thorough 5) ids; every transition is replayed after the genuine history of its source state, comparing registry membership by object identity, returned ids and id uniqueness; after every transition an id-only observer drops every node reference, collects garbage and looks every registered id up again. prune / expand / import on the EML fixture with planted junk are trace-validated (live nodes registered, discarded nodes gone, unrelated ids untouched); 20k-200k fresh ids checked for collisions. Imports cover XML, JSON, JSON with null ids and the legacy JSON codec; replace_child(x, x) is part of the model.",
+   text="RegistryStep (the registry changes only by create/copy/import adding exactly the new ids and delete/replace-with-delete removing exactly the named subtree) is an action property checked by TLC over every history of create, import (xml/json), copy, attach, detach, replace(+-delete), delete(+-children) with <= 4 (thorough 5) ids; every transition is replayed after the genuine history of its source state, comparing registry membership by object identity, returned ids and id uniqueness; after every transition an id-only observer drops every node reference, collects garbage and looks every registered id up again. prune / expand / import on the EML fixture with planted junk are trace-validated (live nodes registered, discarded nodes gone, unrelated ids untouched); 20k-200k fresh ids checked for collisions. Imports cover XML, JSON, JSON with null ids and the legacy JSON codec; replace_child(x, x) is part of the model. Prune of a parentless root with an unknown name (which prune reports as removed) must unregister the whole tree.",
    note="Trusted: TLC, pi. Preconditions of the statement are enabling conditions of the spec (no id reuse, delete only registered ids).",
    technique="TLA+ action property checked by TLC (MC_Reg); transitions replayed after genuine histories; TraceForest.tla judges prune/expand/import events",
    design="4/C14"),
  "C15": dict(
-   text="TLC enumerates planting plans (3 skeletons x <=1/2 plantings (site, kind in unknown child / misplaced known child / invalid content / invalid attribute / starved required child) x strict); each is realised, pruned and judged relationally by TraceEml.tla PruneClauses on the logged pre/post projection, returned list, registry and observed validate.node outcomes: never raises; no offending node remains outside metadata content; strict: every remaining non-root node validates; kept nodes untouched and in order; whole subtrees removed; every cut reported once with a string; registry = before minus removed; only offending (or, strict, observed-invalid) nodes removed; second prune idle. Seeded 1-5 plantings at arbitrary depth on the EML fixture and on generated valid/invalid trees go through the same judge. Planting kinds include a childless child whose name the parent's rule lists although it is not a known element (skeletons eml, relatedProject).",
+   text="TLC enumerates planting plans (3 skeletons x <=1/2 plantings (site, kind in unknown child / misplaced known child / invalid content / invalid attribute / starved required child) x strict); each is realised, pruned and judged relationally by TraceEml.tla PruneClauses on the logged pre/post projection, returned list, registry and observed validate.node outcomes: never raises; no offending node remains outside metadata content; strict: every remaining non-root node validates; kept nodes untouched and in order; whole subtrees removed; every cut reported once with a string; registry = before minus removed; only offending (or, strict, observed-invalid) nodes removed; second prune idle. Seeded 1-5 plantings at arbitrary depth on the EML fixture and on generated valid/invalid trees go through the same judge. Planting kinds include a childless child whose name the parent's rule lists although it is not a known element (skeletons eml, relatedProject). Skeletons include a tree rooted at the metadata element itself.",
    note="Known / AllowedIn come from the rule table generated from the working tree. In strict mode a node cut from a parent that is itself cut later is legitimately listed (TLC taught us: first version of the clause was too strict).",
    technique="plan enumeration by TLC (MC_Plans) + relational TLA+ judge (TraceEml.tla) evaluated by TLC on recorded prune calls",
    design="4/C15"),
  "C16": dict(
-   text="TLC enumerates plans: sequences of <=3 (thorough 4) party elements, each a definition or a reference to a same-rule definition placed before or after it, with/without trailing role, x one dangling reference / duplicated id at every position or none. Each is realised on a dataset skeleton, expanded and judged by TraceEml.tla ExpandClauses: every references node replaced in place by structurally equal fresh copies (CrossEq), sources and all other nodes unchanged, none left, registry exact, validity preserved (observed before/after), copies independent (every copy edited afterwards in every container, old nodes compared), and on a fault ValueError with the full projection unchanged. The EML fixture with seeded extra references and faults goes through the same judge. Every plan is also run on a tree carrying a default namespace (key None) next to a prefixed one, as after from_xml.",
+   text="TLC enumerates plans: sequences of <=3 (thorough 4) party elements, each a definition or a reference to a same-rule definition placed before or after it, with/without trailing role, x one dangling reference / duplicated id at every position or none. Each is realised on a dataset skeleton, expanded and judged by TraceEml.tla ExpandClauses: every references node replaced in place by structurally equal fresh copies (CrossEq), sources and all other nodes unchanged, none left, registry exact, validity preserved (observed before/after), copies independent (every copy edited afterwards in every container, old nodes compared), and on a fault ValueError with the full projection unchanged. The EML fixture with seeded extra references and faults goes through the same judge. Every plan is also run on a tree carrying a default namespace (key None) next to a prefixed one, as after from_xml. Fault-free plans are also run inside an eml document holding one more reference below additionalMetadata/metadata.",
    note="The precondition of the statement (same rule, referenced element reference-free) is enforced by the plan generator; the spec itself decides when expansion must fail.",
    technique="plan enumeration by TLC (MC_Plans) + relational TLA+ judge (TraceEml.tla) evaluated by TLC on recorded expand calls",
    design="4/C16"),
  "C17": dict(
-   text="MC_Insert: for every rule x every existing child sequence over the rule's names up to a budget x every candidate, TLC computes the set Acceptable of indexes the statement allows (in bounds, keeps declared order, restores validity when some position does) and checks the bounded theorem RankIndex in Acceptable for the transcribed documented algorithm on the real table. The code's child_insert_index must answer inside TLC's set (ChildNotAllowedError exactly for foreign names); is_allowed_child is compared with 'occurs in some valid sequence'; long accepted sequences with one child removed are judged by TLC (TraceInsert.tla). Every case with two or more children is also run with all siblings constructed with one explicit id.",
+   text="MC_Insert: for every rule x every existing child sequence over the rule's names up to a budget x every candidate, TLC computes the set Acceptable of indexes the statement allows (in bounds, keeps declared order, restores validity when some position does) and checks the bounded theorem RankIndex in Acceptable for the transcribed documented algorithm on the real table. The code's child_insert_index must answer inside TLC's set (ChildNotAllowedError exactly for foreign names); is_allowed_child is compared with 'occurs in some valid sequence'; long accepted sequences with one child removed are judged by TLC (TraceInsert.tla). Every case with two or more children is also run with all siblings constructed with one explicit id. The model's foreign candidate is realised by names with format-string metacharacters.",
    note="Precondition: each rule names a child at most once (others skipped and listed). Membership via the derivative automaton, cross-checked against the declarative definition in C01's MC_Words.",
    technique="TLA+ Acceptable/RankIndex model-checked by TLC on the real rule table; TLC's acceptable sets replayed against the code; trace validation for long sequences",
    design="4/C17"),
  "C18": dict(
-   text="TreeEq (name, content, tail, prefix, namespace map, attributes, extras, children recursively in order) is evaluated by TLC on every ordered pair of distinct nodes in every state of MC_Copy (templates, copies, and every single/double edit anywhere - i.e. pairs differing in exactly one field of one node at any depth and child position, plus unrelated subtrees); Node.is_equal is compared on all those pairs in both argument orders. MC_Shapes enumerates every pair of ordered labelled trees with <= 4 nodes over two names (thorough: <= 6 nodes over one name) from their pre-order depth sequences - trees with equal label sequences and different nesting included - with the same comparison on every node pair.",
+   text="TreeEq (name, content, tail, prefix, namespace map, attributes, extras, children recursively in order) is evaluated by TLC on every ordered pair of distinct nodes in every state of MC_Copy (templates, copies, and every single/double edit anywhere - i.e. pairs differing in exactly one field of one node at any depth and child position, plus unrelated subtrees); Node.is_equal is compared on all those pairs in both argument orders. MC_Shapes enumerates every pair of ordered labelled trees with <= 4 nodes over two names (thorough: <= 6 nodes over one name) from their pre-order depth sequences - trees with equal label sequences and different nesting included - with the same comparison on every node pair. Deep chains (70/150/300) and a fan of 400 are compared with their copies before and after one edit at the far end (TLC: TreeEq); MC_Fields also enumerates the three mappings filled in different orders.",
    note="Trusted: TLC, pi. Identical-object calls are not made.",
    technique="TLA+ operator TreeEq evaluated by TLC on the MC_Copy state graph; compared with the code on every ordered node pair",
    design="4/C18"),
  "C19": dict(
-   text="Evaluate.tla states the documented recommendations as, per node, the set of acceptable warning sets over a flat tree projection (names, child lists, word counts, truthiness, ORCID flag), with the UNSPEC corners as several acceptable sets. MC_EvalPlans (TLC) enumerates 15,692 dataset profiles (x a complete / minimal / no dataSource nested in the methods) - every threshold at -1/0/+1, every optional part present/absent, abstract text in own content / para / markdown / split / below sections / paras with only inline children, keywords over 1-2 sets, party ids none / other directory / ORCID / both. Each profile is realised as a tree that passes validate.tree (discarded and counted otherwise), evaluated into a pre-filled list and judged node by node by TraceEval.tla: no exception, earlier entries intact, (EvaluationWarning, str, node) triples, exactly an acceptable set at every node. Random rule-guided valid trees go through the same judge; mutated known-name trees, parentless nodes and text-less paras are judged for totality (evaluate.tree and evaluate.node). Every fourth profile is built from words that mean something to str.format, %-formatting, templates and XML.",
+   text="Evaluate.tla states the documented recommendations as, per node, the set of acceptable warning sets over a flat tree projection (names, child lists, word counts, truthiness, ORCID flag), with the UNSPEC corners as several acceptable sets. MC_EvalPlans (TLC) enumerates 15,692 dataset profiles (x a complete / minimal / no dataSource nested in the methods) - every threshold at -1/0/+1, every optional part present/absent, abstract text in own content / para / markdown / split / below sections / paras with only inline children, keywords over 1-2 sets, party ids none / other directory / ORCID / both. Each profile is realised as a tree that passes validate.tree (discarded and counted otherwise), evaluated into a pre-filled list and judged node by node by TraceEval.tla: no exception, earlier entries intact, (EvaluationWarning, str, node) triples, exactly an acceptable set at every node. Random rule-guided valid trees go through the same judge; mutated known-name trees, parentless nodes and text-less paras are judged for totality (evaluate.tree and evaluate.node). Every fourth profile is built from words that mean something to str.format, %-formatting, templates and XML. A fifth of the profiles is evaluated with all nodes sharing one id, another fifth with the registry emptied.",
    note="Word counts and truthiness are observed by the harness projection (Python split); title words separated by spaces. Several physical/size/dataFormat children not generated.",
    technique="profile enumeration by TLC (MC_EvalPlans) + TLA+ recommendation semantics (Evaluate.tla) judging recorded evaluations with TLC (TraceEval.tla)",
    design="4/C19"),
  "C20": dict(
-   text="Text.tla defines Words, NormOK (no NBSP, no leading/trailing space, no run of spaces, same words in order), XPath NormalizeSpace and the protected-element rule; MC_Text checks on all 55,987 strings <= 6 over {SP,TAB,LF,NBSP,a,b} that the spec's own normaliser satisfies NormOK and is idempotent. Every string <= 5 (thorough 6) plus seeded longer ones is run through normalize() and the (input, output, output-of-output) triple judged by TraceText.tla; seeded XML documents (mixed content, protected elements at several depths, plain and xsi-prefixed attributes, SP/TAB/LF/NBSP in text, tails and attribute values) are normalised twice, input and output parsed by an independent parser and judged: same elements, attribute names and order, values/text space-normalised except below protected elements (NBSP replaced only), idempotent, well-formed. Documents carry XML declarations, internal DTD subsets with general entities used in text and attribute values, character references (also of U+00A0), CDATA sections, comments and processing instructions.",
+   text="Text.tla defines Words, NormOK (no NBSP, no leading/trailing space, no run of spaces, same words in order), XPath NormalizeSpace and the protected-element rule; MC_Text checks on all 55,987 strings <= 6 over {SP,TAB,LF,NBSP,a,b} that the spec's own normaliser satisfies NormOK and is idempotent. Every string <= 5 (thorough 6) plus seeded longer ones is run through normalize() and the (input, output, output-of-output) triple judged by TraceText.tla; seeded XML documents (mixed content, protected elements at several depths, plain and xsi-prefixed attributes, SP/TAB/LF/NBSP in text, tails and attribute values) are normalised twice, input and output parsed by an independent parser and judged: same elements, attribute names and order, values/text space-normalised except below protected elements (NBSP replaced only), idempotent, well-formed. Documents carry XML declarations, internal DTD subsets with general entities used in text and attribute values, character references (also of U+00A0), CDATA sections, comments and processing instructions. Text includes letters that Unicode normalisation forms, case mapping or width folding would change.",
    note="Well-formedness and 'what the text denotes' are observed with expat; Unicode whitespace beyond SP/TAB/LF/CR/NBSP is outside the quantifier.",
    technique="TLA+ whitespace semantics model-checked by TLC (MC_Text); recorded normalize() calls trace-validated by TLC (TraceText.tla)",
    design="4/C20"),
